@@ -178,3 +178,59 @@ def random_scenario(rnd, frag, nclauses=3, depth=3, k=0):
     steps = [[{"op": "load", "e": 1, "script": "P", "ow": True}],
              [{"op": "solve", "e": 1, "r": 1, "goal": goal_t, "qnv": qnv, "k": k}]]
     return {"scripts": {"P": defs}, "steps": steps, "keys": DYNKEYS}
+
+
+# ---------------------------------------------------------------- data-dependent control bodies
+def dd_scenario(rnd, maxdepth=4):
+    """a clause body over generators g(V) and tests tS(V) on SHARED variables, so that the outcome of a
+    condition differs between the entries of a construct (nested if-then-else / negation inside
+    conditions, re-entered by a preceding generator goal)"""
+    X, Y, R = V(0), V(1), V(2)
+    tests = {"t1": [1], "t12": [1, 2], "t23": [2, 3], "t3": [3], "t13": [1, 3]}
+    marks = [0]
+
+    def mark():
+        marks[0] += 1
+        return call(C("=", R, A("m%d" % marks[0])))
+
+    def leaf(cond):
+        r = rnd.random()
+        v = X if rnd.random() < 0.6 else Y
+        if r < 0.30:
+            return call(C("g", v))
+        if r < 0.65:
+            return call(C(rnd.choice(sorted(tests)), v))
+        if r < 0.72:
+            return call(C("=", v, I(rnd.randint(1, 3))))
+        if r < 0.80 and not cond:
+            return mark()
+        if r < 0.86:
+            return TRUE
+        if r < 0.92:
+            return FAIL
+        if not cond and r < 0.96:
+            return CUT
+        return call(C("none", v))
+
+    def tree(d, cond):
+        r = rnd.random()
+        if d <= 0 or r < 0.22:
+            return leaf(cond)
+        if r < 0.50:
+            return and_(tree(d - 1, cond), tree(d - 1, cond))
+        if r < 0.62:
+            return or_(tree(d - 1, cond), tree(d - 1, cond))
+        if r < 0.84:
+            return or_(then(tree(d - 1, True), tree(d - 1, cond)), tree(d - 1, cond))
+        if r < 0.90:
+            return then(tree(d - 1, True), tree(d - 1, cond))
+        return not_(tree(d - 1, True))
+
+    body = and_(call(C("g", X)), tree(rnd.randint(2, maxdepth), False)) if rnd.random() < 0.5 else tree(rnd.randint(2, maxdepth), False)
+    script = {"g/1": [clause(C("g", I(i))) for i in (1, 2, 3)],
+              "t/3": [{"h": C("t", X, Y, R), "body": body, "nv": 3}, clause(C("t", A("z"), A("z"), A("z")))]}
+    for n, vals in tests.items():
+        script[n + "/1"] = [clause(C(n, I(i))) for i in vals]
+    steps = [[{"op": "load", "e": 1, "script": "P", "ow": True}],
+             [{"op": "solve", "e": 1, "r": 1, "goal": C("t", V(0), V(1), V(2)), "qnv": 3, "k": 0}]]
+    return {"scripts": {"P": script}, "steps": steps, "keys": []}
